@@ -149,6 +149,10 @@ def gen_plan(rng, tier: str, idx: int, prop: str) -> dict:
         t_start = rng.uniform(-5, 50)
     nmax = (2000 if big else 400) if rng.random() < 0.05 else (60 if rng.random() < 0.8 else 200)
     N = rng.randint(0, 3) if rng.random() < 0.08 else rng.randint(1, nmax)
+    if adaptive:
+        # the cost of an adaptive run is not N: a tight tolerance or a small tracker interval multiplies it (194 000 Euler steps,
+        # 28 000 solve_ivp segments were seen, i.e. 15-60 s for one plan and a per-plan timeout under load) - keep ranges short
+        N = min(N, 40)
     em = rng.randrange(10)
     if em <= 5 or adaptive and em <= 7:
         t_end_spec = {"mode": "n_steps", "n": N}
@@ -217,7 +221,7 @@ def gen_plan(rng, tier: str, idx: int, prop: str) -> dict:
     if use_auto or any(tr["interrupt"]["type"] in ("realtime", "default") for tr in trackers):
         # wall-clock driven schedules can shrink to their floor of 1e-3 simulation time units
         # under clock jumps: keep the simulated range short so that a run stays a few thousand rounds
-        n_cap = max(1, int(3.0 / dt))
+        n_cap = max(1, int((0.3 if solver == "scipy" else 3.0) / dt))  # (every round of the scipy solver is a solve_ivp call)
         if N > n_cap:
             N = n_cap
             spec_mode = t_end_spec["mode"]
